@@ -19,6 +19,7 @@ import (
 type uni struct {
 	rng     *rand.Rand
 	H       []entry
+	hTerm   []int // the term in which each entry of H became committed (non-decreasing)
 	logs    map[int][]entry
 	leader  map[int]int
 	maxTerm int
@@ -67,6 +68,7 @@ func newUni(rng *rand.Rand) *uni {
 	u := &uni{rng: rng, logs: map[int][]entry{}, leader: map[int]int{}}
 	first := entry{idx: 1, term: 1, kind: 5, cfg: baseCfg}
 	u.H = []entry{first}
+	u.hTerm = []int{1}
 	u.logs[1] = []entry{first}
 	u.leader[1] = 2
 	u.maxTerm = 1
@@ -117,6 +119,9 @@ func (u *uni) commit() {
 	k := len(u.H) + 1 + u.rng.Intn(len(l)-len(u.H))
 	if l[k-1].term != u.maxTerm {
 		return // current-term rule
+	}
+	for len(u.hTerm) < k {
+		u.hTerm = append(u.hTerm, u.maxTerm)
 	}
 	u.H = append([]entry{}, l[:k]...)
 }
@@ -312,6 +317,11 @@ func runUniverseCase(rng *rand.Rand, thorough bool, out *bufio.Writer, st *stats
 	cn := min(n, lcp(bl, u.H))
 	if cn > len(u.H) {
 		cn = len(u.H)
+	}
+	// what a server whose term is curTerm can know to be committed: entries committed by leaders of
+	// terms up to its own (a later commit would have reached it together with that later term)
+	for cn > 0 && u.hTerm[cn-1] > curTerm {
+		cn--
 	}
 	staged := 0
 	if cn > 0 {
